@@ -78,8 +78,25 @@ def run(ctx, syn, efile, fmt, res, rule, cols_ok):
             if not (cols_t.k == "ph" and rows_t.k == "ph" and items_t.k == "ph"):
                 res.unanalysable(rule, "dims|%s" % key, t.where, "array lengths / items of the emitted table are not single placeholders")
                 continue
-            cols_d = norm(tpl.resolve_text(t, cols_t.ph).replace("expr:", "", 1))
-            rows_d = norm(tpl.resolve_text(t, rows_t.ph).replace("expr:", "", 1))
+            def full(ph):
+                """what the placeholder prints, with identifiers that are themselves simple lets expanded"""
+                d = norm(tpl.resolve_text(t, ph).replace("expr:", "", 1))
+                for _ in range(3):
+                    changed = False
+                    for idn in set(re.findall(r"(?<![\w.])([a-z_]\w*)(?![\w(])", d)):
+                        if idn in ("self", "file", "table"):
+                            continue
+                        b_ = tpl.binding(t, idn)
+                        if b_ is not None and b_[0] == "let" and b_[1] is not None and idn != ph:
+                            sub = norm(unparse(b_[1]))
+                            if re.match(r"^[\w.()+]+$", sub) and sub != idn:
+                                d = re.sub(r"(?<![\w.])%s(?![\w(])" % re.escape(idn), sub, d)
+                                changed = True
+                    if not changed:
+                        break
+                return d
+            cols_d = full(cols_t.ph)
+            rows_d = full(rows_t.ph)
             items_d = norm(tpl.resolve_text(t, items_t.ph).replace("expr:", "", 1))
             m = re.match(r"^(\w+)\(\)(\.indent\(\d+\))?$", items_d)
             if not m or m.group(1) not in fns:
